@@ -144,6 +144,19 @@ class Z3Ctx:
             c = self.func("cos", 1)(args[0])
             ax.append(s * s + c * c == 1)
             ax.append(z3.And(s >= -1, s <= 1, c >= -1, c <= 1))
+            # A4: signs of sin/cos on the quadrants of (-2pi, 2pi)
+            if self.pi is None:
+                self.tr(tm.PI)
+            t, pi = args[0], self.pi
+            ax.append(z3.Implies(z3.And(t > 0, t < pi), s > 0))
+            ax.append(z3.Implies(z3.And(t > pi, t < 2 * pi), s < 0))
+            ax.append(z3.Implies(z3.And(t > -pi, t < 0), s < 0))
+            ax.append(z3.Implies(z3.And(t > -2 * pi, t < -pi), s > 0))
+            ax.append(z3.Implies(z3.And(t > -pi / 2, t < pi / 2), c > 0))
+            ax.append(z3.Implies(z3.And(t > pi / 2, t < 3 * pi / 2), c < 0))
+            ax.append(z3.Implies(z3.And(t > -3 * pi / 2, t < -pi / 2), c < 0))
+            ax.append(z3.Implies(z3.And(t > 3 * pi / 2, t < 2 * pi), c > 0))
+            ax.append(z3.Implies(z3.And(t > -2 * pi, t < -3 * pi / 2), c > 0))
         elif name == "tan":
             s = self.func("sin", 1)(args[0])
             c = self.func("cos", 1)(args[0])
@@ -158,6 +171,13 @@ class Z3Ctx:
             ax.append(z3.Implies(z3.And(args[0] >= -1, args[0] <= 1), c == args[0]))
             ax.append(s >= 0)
             ax.append(s * s + c * c == 1)
+            # A4: arccos(cos t) on [-pi, 2pi]
+            xa = x.args[1]
+            if xa.op == "fn" and xa.args[0] == "cos":
+                t = self._real(self.cache[xa.args[1].id])
+                ax.append(z3.Implies(z3.And(t >= 0, t <= self.pi), e == t))
+                ax.append(z3.Implies(z3.And(t >= self.pi, t <= 2 * self.pi), e == 2 * self.pi - t))
+                ax.append(z3.Implies(z3.And(t >= -self.pi, t <= 0), e == -t))
         elif name == "pow":
             b, n = args
             ax.append(z3.Implies(b > 0, e > 0))
